@@ -25,7 +25,7 @@ func init() {
 				mm.add(uidOf(0), memUser{upRate: 1000, downRate: 2000, upCredit: 1 << 40, downCredit: 1 << 40, expiry: 1 << 40, cap: 10})
 				panel := MakeUserPanel(newEvManager(mm))
 				var wg sync.WaitGroup
-				sesh := make([]*mux.Session, 3)
+				sesh := make([]*mux.Session, c.PI("conns", 3))
 				for i := range sesh {
 					i := i
 					wg.Add(1)
@@ -40,6 +40,15 @@ func init() {
 							vrt.Fail("harness", "GetSession: %v", err)
 						}
 						sesh[i] = s
+					})
+				}
+				if c.P("round", "0") == "1" {
+					// a usage-upload round at any moment of the admissions
+					wg.Add(1)
+					vrt.Go("round", func() {
+						defer wg.Done()
+						panel.updateUsageQueue()
+						panel.commitUpdate()
 					})
 				}
 				wg.Wait()
@@ -100,6 +109,41 @@ func init() {
 			up, down := float64(1000*(u+1)), float64(2000*(u+1))
 			if !ok || rx != up || tx != down || rxCap != int64(up) || txCap != int64(down) {
 				fail(fmt.Sprintf("user %d configured UpRate=%v DownRate=%v: valve has rx %v/s (burst %d), tx %v/s (burst %d)", u, up, down, rx, rxCap, tx, txCap))
+			}
+		}
+		// histories: the user's last session ends (the record is forgotten), an administrator changes the
+		// rates, the user connects again - each activation is limited by the rates stored at that time
+		for u := 0; u < 2; u++ {
+			for step, rates := range [][2]int64{{500, 700}, {3000, 100}, {1000 * int64(u+1), 2000 * int64(u+1)}} {
+				if au := panel.activeUsers[arr16(uidOf(u))]; au != nil {
+					for sid := range au.sessions {
+						au.CloseSession(sid, "")
+					}
+				}
+				if panel.activeUsers[arr16(uidOf(u))] != nil {
+					fail(fmt.Sprintf("user %d: still active after its last session was closed", u))
+					break
+				}
+				mm.users[arr16(uidOf(u))].upRate, mm.users[arr16(uidOf(u))].downRate = rates[0], rates[1]
+				user, err := panel.GetUser(uidOf(u))
+				if err != nil {
+					fail(fmt.Sprintf("GetUser after a rate change: %v", err))
+					break
+				}
+				sesh, _, err := user.GetSession(uint32(100+step), plainSeshConfig())
+				if err != nil {
+					fail(fmt.Sprintf("GetSession after a rate change: %v", err))
+					break
+				}
+				rep.Executions++
+				rep.Transitions++
+				rx, tx, rxCap, txCap, ok := mux.VerifValveRates(sesh.Valve)
+				near := func(got float64, want int64) bool { // the limiter picks the nearest rate it can tick at, within 1 %
+					return got >= 0.99*float64(want) && got <= 1.01*float64(want)
+				}
+				if !ok || !near(rx, rates[0]) || !near(tx, rates[1]) || rxCap != rates[0] || txCap != rates[1] {
+					fail(fmt.Sprintf("user %d re-activated after its rates were set to UpRate=%d DownRate=%d: its valve has rx %v/s (burst %d), tx %v/s (burst %d)", u, rates[0], rates[1], rx, rxCap, tx, txCap))
+				}
 			}
 		}
 		// a bypass user is not limited
